@@ -184,6 +184,14 @@ Theorem C01_objid_set_long_encode : forall tb otb maxi t0 i0 w,
 Proof. exact objid_set_long_encode. Qed.
 Print Assumptions C01_objid_set_long_encode.
 
+(* ---- a bit string comes back with exactly the bits that went in, for every length 0, 1, 2, ...: the decoder knows no
+   class width (a named-bit subclass's bitLen) to pad or cut to *)
+Theorem C01_bitstring_exact_length : forall tb l t, enc_app tb (PBits l) = Ok t ->
+  dec_app tb 8 t = Ok (PBits l) /\
+  (forall l', dec_app tb 8 t = Ok (PBits l') -> length l' = length l).
+Proof. exact bitstring_exact. Qed.
+Print Assumptions C01_bitstring_exact_length.
+
 (* ---- non-vacuity: the hypotheses are satisfiable and the conclusions are about real encodings *)
 Example C01_ex_values :
   map (enc_octets_app E_basetypes_SecurityLevel)
@@ -229,3 +237,13 @@ Example C01_ex_history_chars :
      [3; 0]%Z ++ canon_prim (PChars 4 [0; 233]) ++
      [2; 0; 27; 4; 0; 233]%Z ++ canon_prim (PChars 4 [0; 233]))%list.
 Proof. vm_compute. reflexivity. Qed.
+(* the same four octets under two object-type tables (stock, and a vendor extension naming type 128): each class
+   answers from its own table only *)
+Example C01_ex_vendor_table :
+  dec_app objid_type_table 12 (mkTag 0 12 4 [32; 0; 0; 2]) = Ok (PObjId (ENum 128) 2) /\
+  dec_app (("vendorMeter", 128) :: objid_type_table) 12 (mkTag 0 12 4 [32; 0; 0; 2]) = Ok (PObjId (EName "vendorMeter") 2) /\
+  enc_app (("vendorMeter", 128) :: objid_type_table) (PObjId (EName "vendorMeter") 2) = Ok (mkTag 0 12 4 [32; 0; 0; 2]).
+Proof. vm_compute. repeat split. Qed.
+Example C01_ex_short_bits :
+  dec_octets_app [] 8 [129; 0] = Ok (PBits [], []) /\ dec_octets_app [] 8 [130; 6; 64] = Ok (PBits [false; true], []).
+Proof. vm_compute. split; reflexivity. Qed.
